@@ -563,6 +563,22 @@ fn long_input_cases() -> Vec<(Vec<K>, Vec<(u16, u16)>)> {
             }
         }
     }
+    // very long lines, submitted: the answer is a notification that quotes the line (or the parser's error
+    // for a file with a very long bad line); it has to be drawn at every size
+    let all_sizes: Vec<(u16, u16)> = vec![(76, 28), (77, 29), (80, 30), (120, 40), (250, 100), (76, 100), (250, 28), (10, 5), (1, 1)];
+    for len in [500usize, 1100, 2500, 10_000, 60_000] {
+        for fi in 0..3usize {
+            let mut keys: Vec<K> = (0..len).map(|i| K::E(Key::Char(fills[fi](i)))).collect();
+            keys.push(K::E(Key::Enter));
+            v.push((keys.clone(), all_sizes.clone()));
+            // and a key after the notification was shown
+            keys.push(K::E(Key::Char('x')));
+            v.push((keys, vec![(76, 28)]));
+        }
+    }
+    for f in ["load longline.asm", "load longline-utf8.asm"] {
+        v.push((typed(f), all_sizes.clone()));
+    }
     v
 }
 
@@ -628,6 +644,9 @@ pub fn run() {
         format!("#! mrasm\n{}L:\n JR L\n", (0..70usize).map(|n| format!(" NOP ; {}{}\n", "a".repeat(n % 4), ["ä", "語", "😀"][n % 3].repeat(n))).collect::<String>()),
     )
     .unwrap();
+    // files the parser rejects at a very long line (the error message quotes the line)
+    std::fs::write(dir.join("longline.asm"), format!("#! mrasm\n NOP\n FROB {}\n NOP\n", "z".repeat(5000))).unwrap();
+    std::fs::write(dir.join("longline-utf8.asm"), format!("#! mrasm\n LD R0, {}\n", "語ä".repeat(3000))).unwrap();
     std::fs::write(dir.join("with space.asm"), "#! mrasm\n LD R0, 3\nL:\n JR L\n").unwrap();
     let _ = std::fs::create_dir_all(dir.join("sub"));
     std::fs::write(dir.join("sub").join("inner.asm"), "#! mrasm\n LD R0, 4\nL:\n JR L\n").unwrap();
